@@ -64,6 +64,7 @@ type jobRec struct {
 	frozen   [3]int // status, result tag, error non-empty, recorded right after the finishing event
 	waiters  []*waiter
 	finKind  string
+	orphan   bool // overwritten in the table by a concurrent Task (known finding): no expectations
 }
 
 type world struct {
@@ -379,10 +380,18 @@ func (w *world) run(o op, seq []op, idx int) (opTerm, retTerm string, panicked b
 
 // invariants of the property, evaluated on the implementation after every step
 func (w *world) oracle(seq []op, idx int) {
-	fail := func(what, key string) {
+	w.oracleWith(func(what, key string) {
 		failOnce(what, key, map[string]interface{}{"ops": seq, "failing_step": idx})
-	}
+	}, seq[idx].K)
+}
+
+// oracleWith: keys are "seq:..." (the same property, whether the history was sequential or a
+// deterministic interleaving; the replay tells which)
+func (w *world) oracleWith(fail func(what, key string), opname string) {
 	for h, r := range w.jobs {
+		if r.orphan {
+			continue
+		}
 		st := int(r.j.Status)
 		cur := [3]int{st, w.resTag(r.j), b2i(len(r.j.Error) > 0)}
 		inTable := c2.VerifC14Entry(w.s, r.id) == r.j
@@ -417,8 +426,8 @@ func (w *world) oracle(seq []op, idx int) {
 			r.frozen = cur
 			r.frozen[0] += 100 // mark as set (status 0 would look unset)
 		} else if cur[0]+100 != r.frozen[0] || cur[1] != r.frozen[1] || cur[2] != r.frozen[2] {
-			fail(fmt.Sprintf("finished job %d changed afterwards (by %s): status/result/error %v, was %v", h, seq[idx].K, cur, r.frozen),
-				"seq:finished-job-changed:"+seq[idx].K)
+			fail(fmt.Sprintf("finished job %d changed afterwards (by %s): status/result/error %v, was %v", h, opname, cur, r.frozen),
+				"seq:finished-job-changed:"+opname)
 		}
 		if inTable {
 			fail(fmt.Sprintf("finished job %d is still in the table", h), "seq:finished-in-table")
@@ -525,6 +534,487 @@ func randOp(r *vh.Rand, njobs int) op {
 		return op{K: "frag", ID: id, Max: r.Intn(3)}
 	}
 	return op{K: "new"}
+}
+
+// ------------------------------------------------------------------ deterministic interleavings
+//
+// The Session logger is used as a scheduling point (shim VerifC14SessionHooked): a goroutine can
+// be parked inside handle between the read-locked lookup and the write-locked finish (point 1)
+// and inside Task between the duplicate check and the insert (point 2).  A thread is one
+// operation on its own goroutine; a schedule is a sequence of SEGMENTS (start a thread and let it
+// run to its park point or to its end / resume a parked thread to its end).  Exactly one
+// goroutine is runnable at any time, so the outcome is deterministic; the same segments are run
+// through Model/Job.v (CSched) and compared after every segment, and the property is judged on
+// the implementation after every segment.
+
+type cthread struct {
+	o       op
+	tid     int
+	ev      chan int // 1 = parked at a scheduling point, 2 = returned
+	resume  chan struct{}
+	started bool
+	parked  bool
+	blocked bool // a Wait that has not returned
+	fin     bool
+	panicv  string
+	opTerm  string
+	pkt     *com.Packet // handle / task
+	tag     int
+	target  *jobRec // handle: the job the oracle's table held under the number at the lookup
+	job     *c2.Job
+	err     error
+	bret    bool
+}
+
+type sworld struct {
+	*world
+	cur  *cthread
+	nthr int
+	all  []*cthread
+}
+
+func newSWorld() *sworld {
+	sw := &sworld{}
+	w := &world{byID: map[uint16]*jobRec{}, tags: map[*com.Packet]int{}, nextTg: 1}
+	w.s = c2.VerifC14SessionHooked(func(point int) {
+		t := sw.cur
+		if t == nil {
+			return
+		}
+		t.ev <- 1
+		<-t.resume
+	})
+	sw.world = w
+	return sw
+}
+
+func (sw *sworld) body(t *cthread) {
+	defer func() {
+		if x := recover(); x != nil {
+			t.panicv = fmt.Sprint(x)
+		}
+		t.ev <- 2
+	}()
+	switch t.o.K {
+	case "task":
+		t.job, t.err = sw.s.Task(t.pkt)
+	case "handle":
+		t.bret = c2.VerifC14Handle(sw.s, t.pkt)
+	case "cancel":
+		sw.job(t.o.H).Cancel()
+	case "wait":
+		sw.job(t.o.H).Wait()
+	case "isdone":
+		t.bret = sw.job(t.o.H).IsDone()
+	default:
+		panic("bad scheduled op " + t.o.K)
+	}
+}
+
+func (sw *sworld) rec(h int) *jobRec {
+	if h < 0 || h >= len(sw.jobs) {
+		return nil
+	}
+	return sw.jobs[h]
+}
+
+// seg runs one segment of thread t (complete: no parking, the thread runs to its end) and returns
+// the Coq term of the segment with its observation ("" if there was nothing to run).
+func (sw *sworld) seg(t *cthread, complete bool, fail func(what, key string)) (term string, hung bool) {
+	if t.fin {
+		return "", false
+	}
+	w := sw.world
+	first := !t.started
+	sw.cur = t
+	if complete {
+		sw.cur = nil
+	}
+	timeout := 3 * time.Second
+	if t.o.K == "wait" {
+		if j := sw.job(t.o.H); j != nil && c2.VerifC14Done(j) == 0 {
+			timeout = 2 * time.Millisecond
+		}
+	}
+	var segTerm string
+	if first {
+		t.started = true
+		t.tid = sw.nthr
+		sw.nthr++
+		switch t.o.K {
+		case "task":
+			t.pkt = &com.Packet{ID: pktTask, Job: uint16(t.o.ID)}
+		case "handle":
+			p := &com.Packet{ID: c2.RvResult, Job: uint16(t.o.ID), Device: w.s.ID}
+			if t.o.Err {
+				p.Flags |= com.FlagError
+				p.WriteString("boom")
+			} else {
+				p.WriteString("fine")
+			}
+			t.pkt, t.tag = p, w.nextTg
+			w.nextTg++
+			w.tags[p] = t.tag
+			if x := w.byID[uint16(t.o.ID)]; t.o.ID >= 2 && x != nil && x.pending {
+				t.target = x
+			}
+		}
+		go sw.body(t)
+	} else if t.parked {
+		t.parked = false
+		t.resume <- struct{}{}
+	}
+	select {
+	case e := <-t.ev:
+		t.blocked = false
+		if e == 1 {
+			t.parked = true
+		} else {
+			t.fin = true
+		}
+	case <-time.After(timeout):
+		if t.o.K != "wait" {
+			fail(fmt.Sprintf("%s did not return and is not at a scheduling point (deadlock / lock left held)", t.o.K), "sched:hang:"+t.o.K)
+			return "", true
+		}
+		t.blocked = true
+	}
+	sw.cur = nil
+	if t.panicv != "" {
+		fail(fmt.Sprintf("%s panicked: %s", t.o.K, t.panicv), "sched:panic:"+t.o.K+":"+t.panicv)
+		return "", true
+	}
+	// ---- Coq term of the segment
+	if first {
+		switch t.o.K {
+		case "task":
+			draws := "[]"
+			if t.o.ID == 0 && t.pkt.Job != 0 {
+				draws = fmt.Sprintf("[%d]", t.pkt.Job)
+			}
+			t.opTerm = fmt.Sprintf("(OTask %d %s false)", t.o.ID, draws)
+		case "handle":
+			t.opTerm = fmt.Sprintf("(OHandle true %d %s %d)", t.o.ID, vh.B(t.o.Err), t.tag)
+		case "cancel":
+			t.opTerm = fmt.Sprintf("(OCancel %d%%nat)", t.o.H)
+		case "wait":
+			t.opTerm = fmt.Sprintf("(OWait %d%%nat)", t.o.H)
+		case "isdone":
+			t.opTerm = fmt.Sprintf("(OIsDone %d%%nat)", t.o.H)
+		}
+		k := 2
+		if complete {
+			k = 4
+		}
+		segTerm = fmt.Sprintf("(SSpawn %s %d%%nat)", t.opTerm, k)
+	} else {
+		segTerm = fmt.Sprintf("(SResume %d%%nat 2%%nat)", t.tid)
+	}
+	// ---- the specification (oracle), in the order in which the segments ran
+	obs := "TParked"
+	switch t.o.K {
+	case "task":
+		id := t.pkt.Job
+		if first {
+			dup := false
+			if x := w.byID[id]; t.o.ID != 0 && x != nil && x.pending {
+				dup = true
+			}
+			switch {
+			case t.fin && t.err == nil && !complete:
+				fail("Task returned without passing its scheduling point", "sched:task-no-park")
+			case t.fin && t.err != nil && !dup:
+				fail("Task refused a job number that is not pending: "+t.err.Error(), "seq:task-refused")
+			case !t.fin && dup:
+				fail(fmt.Sprintf("Task went on with job number %d although a pending job has it", id), "seq:job-id-pending")
+			}
+			if t.o.ID == 0 && (id < 2 || (w.byID[id] != nil && w.byID[id].pending)) && t.err == nil {
+				fail(fmt.Sprintf("Task allocated job number %d (0, 1 or pending)", id), "seq:job-id-pending")
+			}
+		}
+		if t.fin {
+			c2.VerifC14Drain(w.s)
+			if t.err != nil {
+				obs = fmt.Sprintf("(TRet (RErr %d))", errCode(t.err))
+			} else {
+				r := &jobRec{j: t.job, id: t.job.ID, pending: true}
+				w.jobs = append(w.jobs, r)
+				obs = fmt.Sprintf("(TRet (RJob %d%%nat))", len(w.jobs)-1)
+				if old := w.byID[r.id]; old != nil && old.pending {
+					// the recorded finding, reproduced deterministically: both Task calls passed
+					// the check before either inserted
+					old.orphan = true
+					tracked := c2.VerifC14Entry(w.s, r.id)
+					fail(fmt.Sprintf("two overlapping Task calls registered job number %d; the first job is overwritten in the table "+
+						"(tracked is the second: %v), stays pending and can only be released by Cancel", r.id, tracked == t.job),
+						"concurrent-task-id-reuse")
+				}
+				w.byID[r.id] = r
+			}
+		}
+	case "handle":
+		tg := t.target
+		if tg != nil && tg.orphan {
+			tg = nil
+			t.target = nil
+		}
+		if first && !complete {
+			if tg == nil && !t.fin {
+				fail("a result with a job number that is not pending passed the lookup", "seq:unknown-result-accepted")
+			}
+			if tg != nil && t.fin {
+				fail("the result of a pending job was dropped at the lookup", "seq:result-dropped")
+			}
+		}
+		if t.fin {
+			obs = "(TRet (RBool " + vh.B(t.bret) + "))"
+			live := tg != nil && tg.pending && !tg.orphan && w.byID[tg.id] == tg
+			if live {
+				if !t.bret {
+					fail("the result of a pending job was not accepted", "seq:result-dropped")
+				}
+				tg.pending, tg.fin, tg.finKind, tg.finTag = false, 3, "result", t.tag
+				if t.o.Err {
+					tg.fin, tg.finKind = 4, "error result"
+				}
+				delete(w.byID, tg.id)
+			} else if t.bret {
+				fail("a result whose job was finished (or whose number was re-issued) since the lookup was accepted", "seq:unknown-result-accepted")
+			}
+		}
+	case "cancel":
+		obs = "(TRet RUnit)"
+		if r := sw.rec(t.o.H); r != nil && r.pending {
+			r.pending, r.fin, r.finKind = false, 5, "Cancel"
+			if w.byID[r.id] == r {
+				delete(w.byID, r.id)
+			}
+		}
+	case "wait":
+		r := sw.rec(t.o.H)
+		if t.fin {
+			obs = "(TRet RUnit)"
+			if r != nil && r.pending {
+				fail("Wait returned although the job is still pending", "seq:wait-returned-early")
+			}
+		} else if r != nil && !r.pending {
+			fail("Wait blocks on a finished job", "seq:waiter-not-released")
+		}
+	case "isdone":
+		obs = "(TRet (RBool " + vh.B(t.bret) + "))"
+		if r := sw.rec(t.o.H); r != nil && t.bret == r.pending {
+			fail(fmt.Sprintf("IsDone = %v on a job whose pending state is %v", t.bret, r.pending), "seq:isdone-wrong")
+		}
+	}
+	w.oracleWith(fail, t.o.K)
+	return fmt.Sprintf("CStep %s %s %s", segTerm, obs, w.snapshot()), false
+}
+
+// release everything that is still parked or blocked (not part of the case)
+func (sw *sworld) cleanup() {
+	sw.cur = nil
+	for _, t := range sw.all {
+		if t.parked {
+			t.parked = false
+			t.resume <- struct{}{}
+			select {
+			case <-t.ev:
+			case <-time.After(2 * time.Second):
+			}
+		}
+	}
+	for _, r := range sw.jobs {
+		func() {
+			defer func() { recover() }()
+			r.j.Cancel()
+		}()
+	}
+	for _, t := range sw.all {
+		if t.blocked {
+			select {
+			case <-t.ev:
+			case <-time.After(2 * time.Second):
+				failOnce("a goroutine blocked in Wait was not released by the final Cancel", "sched:waiter-never-released", map[string]interface{}{"op": t.o})
+			}
+		}
+	}
+}
+
+var seenSched = map[string]bool{}
+
+// doSched: setup ops run alone (complete), then the threads interleaved as the schedule says
+// (an entry is a thread index; its first occurrence starts the thread, the second resumes it),
+// then an epilogue of complete operations.
+func doSched(setup, threads []op, schedule []int, epilogue []op, class string) {
+	sw := newSWorld()
+	desc := map[string]interface{}{"setup": setup, "threads": threads, "schedule": schedule, "epilogue": epilogue,
+		"note": "schedule entry i = next segment of threads[i]: its first occurrence starts the goroutine and lets it run to its scheduling point " +
+			"(handle: between lookup and finish; Task: between check and insert) or to its end, the second resumes it"}
+	var steps []string
+	nseg := 0
+	fail := func(what, key string) {
+		d := map[string]interface{}{}
+		for k, v := range desc {
+			d[k] = v
+		}
+		d["failing_segment"] = nseg
+		failOnce(what, key, d)
+	}
+	stop := false
+	run := func(t *cthread, complete bool) {
+		if stop {
+			return
+		}
+		term, hung := sw.seg(t, complete, fail)
+		if hung {
+			stop = true
+			return
+		}
+		if term != "" {
+			steps = append(steps, term)
+			nseg++
+		}
+	}
+	mk := func(o op) *cthread {
+		t := &cthread{o: o, ev: make(chan int, 2), resume: make(chan struct{}, 1)}
+		sw.all = append(sw.all, t)
+		return t
+	}
+	for _, o := range setup {
+		run(mk(o), true)
+	}
+	ts := make([]*cthread, len(threads))
+	for i, o := range threads {
+		ts[i] = mk(o)
+	}
+	for _, i := range schedule {
+		run(ts[i], false)
+	}
+	// whatever is still parked runs to its end, in thread order
+	for _, t := range ts {
+		if t.started && !t.fin {
+			run(t, false)
+		}
+	}
+	for _, o := range epilogue {
+		run(mk(o), true)
+	}
+	sw.cleanup()
+	term := "CSched " + vh.List(steps)
+	if seenSched[term] {
+		return
+	}
+	seenSched[term] = true
+	fin := 0
+	for _, r := range sw.jobs {
+		if !r.pending {
+			fin++
+		}
+	}
+	out.Add(term, class, fin > 0 && len(threads) > 1, desc)
+}
+
+// every order of the segments of the threads (segs[i] = how often thread i appears)
+func interleavings(segs []int, f func([]int)) {
+	total := 0
+	for _, n := range segs {
+		total += n
+	}
+	left := append([]int(nil), segs...)
+	cur := make([]int, 0, total)
+	var rec func()
+	rec = func() {
+		if len(cur) == total {
+			f(append([]int(nil), cur...))
+			return
+		}
+		for i := range left {
+			if left[i] > 0 {
+				left[i]--
+				cur = append(cur, i)
+				rec()
+				cur = cur[:len(cur)-1]
+				left[i]++
+			}
+		}
+	}
+	rec()
+}
+
+func segCount(o op) int {
+	switch o.K {
+	case "task", "handle", "wait":
+		return 2
+	}
+	return 1
+}
+
+func schedPart(rng *vh.Rand, thorough bool) {
+	T7 := op{K: "task", ID: 7}
+	T8 := op{K: "task", ID: 8}
+	T0 := op{K: "task", ID: 0}
+	R7 := op{K: "handle", ID: 7}
+	E7 := op{K: "handle", ID: 7, Err: true}
+	R8 := op{K: "handle", ID: 8}
+	C0 := op{K: "cancel", H: 0}
+	C1 := op{K: "cancel", H: 1}
+	W0 := op{K: "wait", H: 0}
+	D0 := op{K: "isdone", H: 0}
+	D1 := op{K: "isdone", H: 1}
+	type prog struct {
+		name            string
+		setup, thr, epi []op
+	}
+	progs := []prog{
+		// the number of a cancelled job re-issued while its late result is inside handle
+		{"result||cancel||reissue", []op{T7}, []op{R7, C0, T7}, []op{R7, D0, D1}},
+		{"result||result", []op{T7}, []op{R7, E7}, []op{D0}},
+		{"result||cancel", []op{T7}, []op{R7, C0}, []op{R7, D0}},
+		{"result||result||cancel", []op{T7}, []op{R7, E7, C0}, []op{D0}},
+		{"result||cancel||cancel", []op{T7}, []op{E7, C0, C0}, []op{D0}},
+		{"task||task", nil, []op{T7, T7}, []op{R7, D0, D1}},
+		{"task||task||result", nil, []op{T7, T7, R7}, []op{D0, D1}},
+		{"task||task-allocated", nil, []op{T0, T0}, []op{D0, D1}},
+		{"task||cancel||result", []op{T7}, []op{T7, C0, R7}, []op{R7, D0, D1}},
+		{"result||cancel||wait||isdone", []op{T7}, []op{R7, C0, W0, D0}, nil},
+		{"two-jobs", []op{T7, T8}, []op{R7, R8, C0, C1}, []op{D0, D1}},
+	}
+	for _, p := range progs {
+		segs := make([]int, len(p.thr))
+		for i, o := range p.thr {
+			segs[i] = segCount(o)
+		}
+		interleavings(segs, func(s []int) { doSched(p.setup, p.thr, s, p.epi, "sched:"+p.name) })
+	}
+	// random programs and schedules
+	pool := []op{R7, E7, R7, C0, C0, C1, T7, T7, T8, R8, W0, D0, D1, {K: "wait", H: 1}, {K: "handle", ID: 9}, T0}
+	n := 400
+	if thorough {
+		n = 6000
+	}
+	for k := 0; k < n; k++ {
+		var setup []op
+		if rng.Intn(4) != 0 {
+			setup = append(setup, T7)
+			if rng.Intn(3) == 0 {
+				setup = append(setup, T8)
+			}
+		}
+		nt := 2 + rng.Intn(3)
+		thr := make([]op, nt)
+		var sched []int
+		for i := range thr {
+			thr[i] = pool[rng.Intn(len(pool))]
+			for c := 0; c < segCount(thr[i]); c++ {
+				sched = append(sched, i)
+			}
+		}
+		for i := len(sched) - 1; i > 0; i-- {
+			j := rng.Intn(i + 1)
+			sched[i], sched[j] = sched[j], sched[i]
+		}
+		doSched(setup, thr, sched, []op{R7, D0, D1}, "sched:random")
+	}
 }
 
 // ------------------------------------------------------------------ stress (search only)
@@ -786,6 +1276,11 @@ func main() {
 	}
 	out.Extra("sequential_seconds", time.Since(t0).Seconds())
 
+	// ---- deterministic interleavings through the scheduling points of the code
+	ts := time.Now()
+	schedPart(rng, thorough)
+	out.Extra("scheduled", map[string]interface{}{"distinct_cases": len(seenSched), "seconds": time.Since(ts).Seconds()})
+
 	// ---- number allocation against a nearly full table (oracle only)
 	{
 		s := c2.VerifC14Session()
@@ -856,13 +1351,16 @@ func main() {
 		if both, d := taskRace(rng); both {
 			d["trial"] = trials
 			d["observed_on"] = "implementation (two goroutines, Task with Job=7 each, fresh Session)"
-			out.Fail("two concurrent Task calls registered the same job number; the first job is overwritten in the table and never completes",
-				"concurrent-task-id-reuse", d)
+			if failCount["concurrent-task-id-reuse"] == 0 {
+				out.Fail("two concurrent Task calls registered the same job number; the first job is overwritten in the table and never completes",
+					"concurrent-task-id-reuse", d)
+			}
+			out.Extra("task_race_free_running", d)
 			hit = true
 			break
 		}
 	}
-	if !hit {
+	if !hit && failCount["concurrent-task-id-reuse"] == 0 {
 		out.Fail("two concurrent Task calls can register the same job number (check under RLock, insert under a later Lock)",
 			"concurrent-task-id-reuse", map[string]interface{}{
 				"observed_on": "model only in this run (the goroutine race was not hit in " + fmt.Sprint(trials) + " trials)",
